@@ -123,6 +123,27 @@ def generate(rng, n, tier):
         c = make_case(parts, docs)
         if c is not None:
             cases.append(c)
+    # conditions built directly (not through the DSL) store the argument positionally: `simplify()` reads
+    # `kwargs["value"]` of such an `equal_to` and raises KeyError - for every part, before any part is written
+    import valida.callables as calls
+    import valida.conditions as CC
+    import valida.datapath as DPm
+    raw = [
+        ("DataPath(MapValue(condition=Key(callables.equal_to, 5)), ListValue())",
+         lambda: DPm.DataPath(DPm.MapValue(condition=CC.Key(calls.equal_to, 5)), DPm.ListValue())),
+        ("DataPath(MapValue(label='x'), MapValue(key=Key(callables.equal_to, 'a')))",
+         lambda: DPm.DataPath(DPm.MapValue(label="x"), DPm.MapValue(key=CC.Key(calls.equal_to, "a")))),
+        ("DataPath(MapOrListValue(list_condition=Index(callables.equal_to, 0), map_condition=Key.equal_to(0)), MapValue())",
+         lambda: DPm.DataPath(DPm.MapOrListValue(list_condition=CC.Index(calls.equal_to, 0), map_condition=CC.Key.equal_to(0)), DPm.MapValue())),
+    ]
+    for text, mk in raw:
+        c = Case("to_part_specs_raw", {"path": text})
+        c.py = f"from valida.conditions import *\nfrom valida.datapath import *\nfrom valida import callables\nprint({text}.to_part_specs())"
+        p = mk()
+        sp = enc.outcome(lambda: p.to_part_specs())
+        c.ask(["to_part_specs", enc.enc_path(p)], ["ok", enc.enc_val(sp[1])] if sp[0] == "ok" else sp, "to_part_specs")
+        c.features.add(("raw", text[:30]))
+        cases.append(c)
     while len(cases) < n:
         k = rng.choice([0, 1, 2, 2, 3, 4])
         mode = rng.random()
